@@ -129,6 +129,17 @@ func newL1World(run *mon.Run, rng *mon.Rand, mons MonSet, cfg WorldCfg) *L1World
 		}
 		w.opCreateBridge(p, true)
 	}
+	if cfg.Bridges > 0 && rng.Chance(20) {
+		// one bridge of this chain came with an imported genesis in which its deposit counter stands just below 2^63
+		// (the counter is a uint64; the values above 2^63 are as good as the ones below)
+		id := uint64(1 + rng.Intn(cfg.Bridges))
+		v := uint64(1<<63 - 3)
+		if err := w.env.L1.K.SetNextL1Sequence(w.env.L1.Ctx, id, v); err != nil {
+			panic(err)
+		}
+		w.br[id].nextSeq = v
+		w.logf("bridge %d: next L1 sequence set to %d (as if imported)", id, v)
+	}
 	return w
 }
 
